@@ -38,6 +38,7 @@ MIN_REACH = {
     "requested_grids_given_as_one_shot_iterables": {"quick": 30, "thorough": 400},
     "complex_valued_variables": {"quick": 80, "thorough": 1000},
     "datasets_of_a_hundred_thousand_and_more_numbers": {"quick": 3, "thorough": 12},
+    "searches_repeated_on_the_same_dataset_after_filling_its_holes_in_place": {"quick": 30, "thorough": 500},
 }
 TIME_BUDGET = {"quick": 400, "thorough": 3400}
 # (some parameter names coincide with keyword options of xarray's own selection methods: they are ordinary names here)
@@ -341,6 +342,23 @@ def run_case(ctx, case):
             bad.append("parse_into_cases raised %r" % (e,))
     if not ds.identical(before):
         bad.append("the dataset was modified by the search")
+    if not bad and not case["da"] and case["dseed"] % 3 == 0 and all(ds[v].dtype.kind in "fc" for v in ds.data_vars):
+        # DOING IT AGAIN on the same object: the holes found are filled IN PLACE (ds[v].values[...] = ...), then the same
+        # search runs again on the same Dataset object - it reports what is missing NOW (nothing)
+        try:
+            ds2 = ds.copy(deep=True)
+            with quiet():
+                xyzpy.find_missing_cases(ds2, ignore_dims=spelled, method=method)
+                for v in ds2.data_vars:
+                    arr = ds2[v].values
+                    arr[~np.isfinite(arr)] = 0.25
+                fa2, miss2 = xyzpy.find_missing_cases(ds2, ignore_dims=spelled, method=method)
+            ctx.count("searches_repeated_on_the_same_dataset_after_filling_its_holes_in_place")
+            if len(miss2):
+                bad.append("second search on the same Dataset object, after every hole had been filled in place, still reports %d locations missing: %s" % (
+                    len(miss2), list(miss2)[:3]))
+        except Exception as e:
+            bad.append("the repeated search raised %r" % (e,))
     for msg in bad[:2]:
         ctx.violation(case, msg, dict(sig, oracle=msg.split("(")[0].split(" ")[0]))
     ctx.observe(case, key=(case["dims"], case["sizes"], [(v["dims"], v["internal"], v["dtype"]) for v in case["vars"]],
